@@ -148,7 +148,7 @@ def mc(run, spec, cfg_text, env, workers=8, timeout=1500, need_actions=(), label
     run.transitions += gen
     run.stages.append({"stage": label or spec, "kind": "tlc-exhaustive", "distinct_states": dist,
                        "states_generated": gen, "action_counts": cov, "wall_s": round(time.time() - t0, 1),
-                       "env": {k: v for k, v in env.items() if k in ("MAXACT", "PROGS", "APPS")}})
+                       "env": {k: v for k, v in env.items() if k in ("MAXACT", "PROGS", "APPS", "PAIRS")}})
     return out
 
 
